@@ -1,11 +1,13 @@
 import PydraModel.Typing.Static4
+import PydraModel.Typing.Static8
 /-
 C21 — Accepted lazy connections are honoured at run time.
 
 `checkType T S` mirrors `TypeParser(T).check_type(S)` with default flags (no superclass_auto_cast, no
 match_any_of_union: "without relying on permissive super-to-sub-class casting"); `coerce (cfgOf sac) T v`
 mirrors what the downstream input's parser does with a run-time value (`sac = fieldParserSac` on task fields;
-the theorems hold for both settings).  Inductions: `Typing/Static*.lean`.
+the theorems hold for both settings).  Inductions: `Typing/Static*.lean` (Static–Static4: the sequence-pattern
+grammar; Static5–Static8: the whole grammar).
 -/
 namespace PydraModel.Typing
 
@@ -53,6 +55,54 @@ theorem C21_partial_seqPatterns (sac : Bool) (T S : Ty) (v : V) (hT : T.seqPat =
   have hst' : hit pbStrict pgStrict S v = false := by
     unfold strictAtoms at hst; simpa using hst
   exact c21_main sac T S v hT hS haf hv (checkType_expand hT haf hchk) hc hst' hex
+
+/-- PARTIAL, WHOLE pattern grammar (classes, Any, unions, every generic origin incl. set / frozenset /
+    abstract sets, dict / Mapping / MutableMapping, MultiInputObj[T], fixed and variadic tuples, any nesting), any
+    well-formed Any-free source S, any conforming standard value, both `superclass_auto_cast` settings, and
+    acceptance through the MultiInputObj retry of `check_type` included.
+    Exclusions (decidable): `strictAtoms S v` as above; `ex21x sac T v = false`, i.e. no position of the coercion where
+      * a bare class is met by a non-instance whose constructor call raises (D25, D25b, D25c at a bare class),
+      * an abstract generic origin is met by a non-instance (D25b),
+      * a dict is met by a non-mapping origin it is an instance of (D25d: ValueError),
+      * a set / frozenset is (re-)built, or a dict's keys are, from items whose pattern is not `hashTy`
+        (scalar classes, tuples and unions of such, frozenset[..]) — the remaining restriction, named in the
+        theorem: it is the static form of D25c and also leaves out harmless cases such as `set[Any]`. -/
+theorem C21_partial_hashTyItems (sac : Bool) (T S : Ty) (v : V) (hT : T.wf = true) (hS : S.wf = true)
+    (haf : S.anyFree = true) (hv : v.std = true) (hchk : checkType T S = .ok ()) (hc : conforms S v = true)
+    (hst : strictAtoms S v = true) (hex : ex21x sac T v = false) : OkAr (coerce (cfgOf sac) T v) := by
+  have hst' : hit pbStrict pgStrict S v = false := by
+    unfold strictAtoms at hst; simpa using hst
+  exact c21_checkTypeX sac T S v hT hS haf hv hchk hc hst' hex
+
+/-- values stored by a `hashTy` pattern are hashable (why sets and dict keys can be built) -/
+theorem C21_hashTy_hashable (sac : Bool) (t : Ty) (x y : V) (ht : t.wf = true) (hh : hashTy t = true)
+    (hx : x.std = true) (h : coerce (cfgOf sac) t x = .ok y) : hashable y = true :=
+  coerce_hashable (cfgOf sac) t x y ht hh hx h
+
+def T2 : Ty := .gen .dict [.cls .str, .gen .set [.gen .tuple [.cls .float, .cls .Path]]]
+def S2 : Ty := .gen .Mapping [.cls .str, .gen .list [.gen .tuple [.cls .int, .cls .str]]]
+def v2 : V := .map .dict [.atom .str (.str "k".toList)]
+  [.seq .list [.seq .tuple [.atom .int (.int 1), .atom .str (.str "a/b".toList)],
+               .seq .tuple [.atom .bool (.int 1), .atom .str (.str "a//b".toList)]]]
+
+example : T2.wf = true ∧ S2.wf = true ∧ S2.anyFree = true := by decide
+example : v2.std = true := by decide +kernel
+example : checkType T2 S2 = .ok () := by with_unfolding_all rfl
+example : conforms S2 v2 = true := by decide +kernel
+example : strictAtoms S2 v2 = true := by decide +kernel
+example : ex21x true T2 v2 = false := by decide +kernel
+/-- non-vacuity: Mapping -> dict, list -> set (duplicates after coercion dropped), int/bool -> float, str -> Path -/
+example : coerce (cfgOf true) T2 v2
+    = .ok (.map .dict [.atom .str (.str "k".toList)]
+        [.seq .set [.seq .tuple [.atom .float (.int 1), .atom .PosixPath (.str "a/b".toList)]]]) := by
+  with_unfolding_all rfl
+
+/-- non-vacuity of the retry: `tuple[int, int] -> MultiInputObj[tuple[int, int]]` is accepted only by the retry -/
+example : expandCheck (.gen MIO [.gen .tuple [.cls .int, .cls .int]]) (.gen .tuple [.cls .int, .cls .int]) = .error (.type false)
+    ∧ checkType (.gen MIO [.gen .tuple [.cls .int, .cls .int]]) (.gen .tuple [.cls .int, .cls .int]) = .ok ()
+    ∧ coerce (cfgOf true) (.gen MIO [.gen .tuple [.cls .int, .cls .int]]) (.seq .tuple [.atom .int (.int 1), .atom .int (.int 2)])
+        = .ok (.seq .list [.seq .tuple [.atom .int (.int 1), .atom .int (.int 2)]]) := by
+  exact ⟨by with_unfolding_all rfl, by with_unfolding_all rfl, by with_unfolding_all rfl⟩
 
 /-- the class-level base case, re-proved over the regenerated tables on every run -/
 theorem C21_tables (sac : Bool) (b a c : Cls) (hb : isStdValueCls b = true)
